@@ -229,9 +229,19 @@ pub fn prepare(tier: Tier) -> Harness {
     prepare_on(tier, None)
 }
 
+/// Harness for `states` (ids 0..n) in which every module is produced by the real
+/// `#[pdl_derive::pdl_inline(..)]` attribute macro instead of the text the CLI prints (C11 d).
+pub fn prepare_derive(tier: Tier, states: Vec<Selected>) -> Harness {
+    prepare_variant(tier, Some(states), true)
+}
+
 /// `only`: a harness for exactly these states (single-source / replay mode: one shard crate in
 /// its own directory and cargo target directory) instead of the explored and selected ones.
 pub fn prepare_on(tier: Tier, only: Option<Vec<Selected>>) -> Harness {
+    prepare_variant(tier, only, false)
+}
+
+fn prepare_variant(tier: Tier, only: Option<Vec<Selected>>, derive: bool) -> Harness {
     let single = only.is_some();
     let (e, sel) = match only {
         Some(states) => (pdlmc_core::graph::Explored::default(), select::Selection { states, strata: vec![] }),
@@ -245,7 +255,14 @@ pub fn prepare_on(tier: Tier, only: Option<Vec<Selected>>) -> Harness {
     if std::env::var("PDLMC_SELECT_ONLY").is_ok() {
         std::process::exit(0);
     }
-    let dir = PathBuf::from(if single { format!("{VERIF_DIR}/work/rust_single") } else { format!("{VERIF_DIR}/work/rust_{}", tier_name(tier)) });
+    let dir = PathBuf::from(if derive {
+        format!("{VERIF_DIR}/work/rust_derive")
+    } else if single {
+        format!("{VERIF_DIR}/work/rust_single")
+    } else {
+        format!("{VERIF_DIR}/work/rust_{}", tier_name(tier))
+    });
+    let mut mod_sources: BTreeMap<String, String> = BTreeMap::new();
     std::fs::create_dir_all(&dir).expect("mkdir");
     // generate the modules with the real backend
     let gens: Vec<(usize, Vec<(bool, Result<String, String>, Desc)>)> = sel
@@ -295,6 +312,10 @@ pub fn prepare_on(tier: Tier, only: Option<Vec<Selected>>) -> Harness {
             }
             match code {
                 Ok(c) => {
+                    if derive {
+                        let d = st.desc.with_endian(if *big { Endian::Big } else { Endian::Little });
+                        mod_sources.insert(mname.clone(), render::canonical(&d));
+                    }
                     // the inner attribute `#![rustfmt::skip]` is kept: the file is a module file
                     write_if_changed(&dir.join(format!("shard_{shard:02}/src/gen/{mname}.rs")), c);
                     shard_mods[shard].push(mname.clone());
@@ -336,9 +357,14 @@ pub fn prepare_on(tier: Tier, only: Option<Vec<Selected>>) -> Harness {
     }
     for i in 0..n_shards {
         let sd = dir.join(format!("shard_{i:02}"));
-        write_if_changed(&sd.join("Cargo.toml"), &shard_cargo(i));
+        write_if_changed(&sd.join("Cargo.toml"), &if derive { format!("{}pdl-derive = {{ path = \"/repo/pdl-derive\" }}\n", shard_cargo(i)) } else { shard_cargo(i) });
         write_if_changed(&sd.join("src/main.rs"), SHARD_MAIN);
-        let gen_mod: String = shard_mods[i].iter().map(|m| format!("pub mod {m};\n")).collect();
+        let gen_mod: String = if derive {
+            // the module body comes from the attribute macro, not from a generated file
+            shard_mods[i].iter().map(|m| format!("#[pdl_derive::pdl_inline(r####\"{}\"####)]\npub mod {m} {{}}\n", mod_sources.get(m).cloned().unwrap_or_default())).collect()
+        } else {
+            shard_mods[i].iter().map(|m| format!("pub mod {m};\n")).collect()
+        };
         write_if_changed(&sd.join("src/gen/mod.rs"), &gen_mod);
         write_if_changed(
             &sd.join("src/table.rs"),
@@ -373,7 +399,13 @@ pub fn prepare_on(tier: Tier, only: Option<Vec<Selected>>) -> Harness {
         build_s: 0.0,
         shards: n_shards,
         thorough: tier == Tier::Thorough,
-        target: if single { format!("{VERIF_DIR}/work/target-rust-single") } else { target_dir(tier == Tier::Thorough) },
+        target: if derive {
+            format!("{VERIF_DIR}/work/target-rust-derive")
+        } else if single {
+            format!("{VERIF_DIR}/work/target-rust-single")
+        } else {
+            target_dir(tier == Tier::Thorough)
+        },
     }
 }
 
